@@ -15,8 +15,11 @@ def tensor_handles(run):
     return [h for h, t in run.env.items() if isinstance(t, mg.Tensor)]
 
 
-def check_state(run: ir.MgRun, ref: ir.RefRun, objs, consts, after):
-    """C04 oracle for every live tensor handle."""
+def check_state(run: ir.MgRun, ref: ir.RefRun, objs, consts, after, touched=None):
+    """C04 oracle for every live tensor handle.  `touched`: handles whose memory the last statement created or
+    wrote (the pairwise sharing matrix is re-examined for every pair involving one of them; pairs among untouched
+    handles were examined after an earlier statement and neither side's array has changed since - their values
+    and bases are still compared every time)."""
     mg = run.mg
     hs = tensor_handles(run)
     for h in hs:
@@ -48,6 +51,8 @@ def check_state(run: ir.MgRun, ref: ir.RefRun, objs, consts, after):
                                             f"(base is {'None' if t.base is None else 'another tensor'})", h=h)
     for i, h1 in enumerate(hs):
         for h2 in hs[i + 1:]:
+            if touched is not None and h1 not in touched and h2 not in touched:
+                continue
             a1, a2 = ref.env[h1], ref.env[h2]
             if a1.size == 0 or a2.size == 0:
                 continue
@@ -138,7 +143,14 @@ def run_lockstep(prog, check_each=True, stop_before=None, flag_views="grad"):
                 if t.constant is not bool(ref.const[h]):
                     return run, ref, Mismatch("constant_flag", f"stmt {idx}: new tensor h{h}.constant={t.constant}, model {ref.const[h]}")
         if check_each and k in ("op", "inplace", "leaf"):
-            mm = check_state(run, ref, objs, consts, idx)
+            if k == "inplace":
+                o = ref.owner[st["target"]]
+                touched = {h for h, oo in ref.owner.items() if oo == o}
+                # MyGrad re-homes every member of the family: identity of their arrays changed
+                touched |= {h for h, t in run.env.items() if isinstance(t, mg.Tensor) and t.base is run.env.get(o)}
+            else:
+                touched = {st["h"]}
+            mm = check_state(run, ref, objs, consts, idx, touched=touched)
             if mm is not None:
                 return run, ref, mm
     return run, ref, None
